@@ -230,23 +230,46 @@ func checkBlockLengthSiblings(p *Prog, r *Report) {
 		}
 		r.Cond(bad == "", rule, where, pos, bad)
 	}
-	// sender: stores to SumBuf.Len in receiveSums
-	var sl []leaf
-	for _, b := range rs.Blocks {
-		for _, in := range b.Instrs {
-			st, ok := in.(*ssa.Store)
-			if !ok {
-				continue
+	// expand: phis (with the facts of the edge), helper calls (with the facts at each return), conversions
+	var expand func(v ssa.Value, ctx []Fact, pos token.Pos, depth int) []leaf
+	expand = func(v ssa.Value, ctx []Fact, pos token.Pos, depth int) []leaf {
+		if depth > 4 {
+			return []leaf{{v, ctx, pos}}
+		}
+		var out []leaf
+		for _, el := range phiEdgeLeaves(v) {
+			facts := append([]Fact{}, ctx...)
+			if el.pred != nil {
+				facts = append(edgeFacts(el), facts...)
 			}
-			if _, f := fieldOfAddr(st.Addr); f != lenF {
-				continue
-			}
-			for _, el := range phiEdgeLeaves(st.Val) {
-				facts := FactsAtBlock(st.Block())
-				if el.pred != nil {
-					facts = append(edgeFacts(el), facts...)
+			inner := stripConv(el.leaf)
+			if c, ok := inner.(*ssa.Call); ok {
+				if h := c.Common().StaticCallee(); h != nil && h.Blocks != nil && isModFunc(h) && h.Signature.Results().Len() == 1 {
+					for _, hb := range h.Blocks {
+						if ret, ok := lastInstr(hb).(*ssa.Return); ok {
+							out = append(out, expand(retResults(ret)[0], append(FactsAtBlock(hb), facts...), ret.Pos(), depth+1)...)
+						}
+					}
+					continue
 				}
-				sl = append(sl, leaf{el.leaf, facts, st.Pos()})
+			}
+			out = append(out, leaf{el.leaf, facts, pos})
+		}
+		return out
+	}
+	// sender: stores to SumBuf.Len in receiveSums (or the sender functions it was split into)
+	var sl []leaf
+	for _, u := range g.unitFuncs(rs) {
+		for _, b := range u.Blocks {
+			for _, in := range b.Instrs {
+				st, ok := in.(*ssa.Store)
+				if !ok {
+					continue
+				}
+				if _, f := fieldOfAddr(st.Addr); f != lenF {
+					continue
+				}
+				sl = append(sl, expand(st.Val, FactsAtBlock(st.Block()), st.Pos(), 0)...)
 			}
 		}
 	}
@@ -264,13 +287,7 @@ func checkBlockLengthSiblings(p *Prog, r *Report) {
 			if !ok {
 				return
 			}
-			for _, el := range phiEdgeLeaves(stripConv(mk.Len)) {
-				facts := FactsAtBlock(mk.Block())
-				if el.pred != nil {
-					facts = append(edgeFacts(el), facts...)
-				}
-				rl = append(rl, leaf{el.leaf, facts, mk.Pos()})
-			}
+			rl = append(rl, expand(stripConv(mk.Len), FactsAtBlock(mk.Block()), mk.Pos(), 0)...)
 		})
 	}
 	classify("receiver block copy: ReadAt buffer length", rl, pos)
